@@ -312,3 +312,20 @@ def is_ping_body(bv):
     """The ping function: builds a request with add_ping but neither add_update_check nor add_event."""
     ops = builder_ops(bv)
     return "add_ping" in ops and "add_update_check" not in ops and "add_event" not in ops
+
+
+def callable_body(W, t):
+    """The local body behind a callable value passed to a combinator: a closure literal (its element parameter is 2, after the
+    environment) or a function item given by path (element parameter 1).  -> (BV, element parameter index) or (None, None)."""
+    from .core import BV, walk
+    for x in walk(t):
+        if x[0] == "agg" and x[1] == "closure" and x[2] in W.by_id:
+            return W.bv(x[2]), 2
+    y = strip_refs(t)
+    if y[0] == "const" and isinstance(y[1], dict):
+        path = y[1].get("def") or y[1].get("s") or ""
+        path = path[6:] if path.startswith("const ") else path
+        cands = [b for b in W.by_id.values() if b.get("kind") == "fn" and (b["name"] == path or b["id"].endswith("::" + path) or path.endswith(b["name"]) or b["id"].replace("omaha_client::", "").replace("mock_omaha_server::", "") == norm(path))]
+        if len(cands) == 1:
+            return BV.of(cands[0]), 1
+    return None, None
